@@ -299,6 +299,68 @@ class SimFS(object):
 
     unlink = remove
 
+    # ---- descriptor-level API (os.open / os.fdopen / os.write / os.close)
+    def os_open(self, path, flags, mode=0o777, *a, **kw):
+        if not self.inside(path):
+            return _real_os.open(path, flags, mode, *a, **kw)
+        p = self.norm(path)
+        self.op("os.open", p)
+        acc = flags & (_real_os.O_RDONLY | _real_os.O_WRONLY | _real_os.O_RDWR)
+        exists = p in self.files
+        if p in self.dirs:
+            raise IsADirectoryError(21, "Is a directory", p)
+        if not exists:
+            if not flags & _real_os.O_CREAT:
+                raise FileNotFoundError(2, "No such file or directory", p)
+            if posixpath.dirname(p) not in self.dirs:
+                raise FileNotFoundError(2, "No such file or directory", p)
+            self.files[p] = bytearray()
+        elif flags & _real_os.O_CREAT and flags & _real_os.O_EXCL:
+            raise FileExistsError(17, "File exists", p)
+        if flags & _real_os.O_TRUNC and acc != _real_os.O_RDONLY:
+            del self.files[p][:]
+        fmode = "rb" if acc == _real_os.O_RDONLY else ("r+b" if acc == _real_os.O_RDWR else "wb")
+        f = SimFSFile(self, p, self.files[p], fmode)
+        f._append = bool(flags & _real_os.O_APPEND)
+        if not hasattr(self, "_fds"):
+            self._fds = {}
+            self._next_fd = 1000
+        fd = self._next_fd
+        self._next_fd += 1
+        self._fds[fd] = f
+        if acc != _real_os.O_RDONLY:
+            self.open_for_write.add(id(f))
+            self.max_open_for_write = max(self.max_open_for_write, len(self.open_for_write))
+        return fd
+
+    def os_fdopen(self, fd, mode="r", *a, **kw):
+        f = getattr(self, "_fds", {}).get(fd)
+        if f is None:
+            return _real_os.fdopen(fd, mode, *a, **kw)
+        if "b" not in mode:
+            raise HarnessError("text-mode os.fdopen on the simulated file system is not implemented")
+        return f
+
+    def os_close(self, fd):
+        f = getattr(self, "_fds", {}).pop(fd, None)
+        if f is None:
+            return _real_os.close(fd)
+        f.close()
+
+    def os_write(self, fd, data):
+        f = getattr(self, "_fds", {}).get(fd)
+        if f is None:
+            return _real_os.write(fd, data)
+        if getattr(f, "_append", False):
+            f.seek(0, 2)
+        return f.write(data)
+
+    def os_read(self, fd, n):
+        f = getattr(self, "_fds", {}).get(fd)
+        if f is None:
+            return _real_os.read(fd, n)
+        return f.read(n)
+
     def rename(self, src, dst, *a, **kw):
         s_, d_ = self.norm(src), self.norm(dst)
         if not self.inside(s_) and not self.inside(d_):
@@ -453,6 +515,7 @@ class OsShim(object):
         self.path = _PathShim(fs)
         self.listdir, self.makedirs, self.mkdir, self.remove = fs.listdir, fs.makedirs, fs.mkdir, fs.remove
         self.unlink, self.rename, self.replace, self.rmdir, self.stat, self.walk = fs.unlink, fs.rename, fs.replace, fs.rmdir, fs.stat, fs.walk
+        self.open, self.fdopen, self.close, self.write, self.read = fs.os_open, fs.os_fdopen, fs.os_close, fs.os_write, fs.os_read
 
     def __getattr__(self, name):
         return getattr(_real_os, name)
